@@ -612,7 +612,7 @@ def det_child(spec_path: str) -> None:
 
 
 def spawn_child(scratch: typing.Any, name: str, hashseed: int, order: str, tokens: typing.Optional[list],
-                langs: typing.Sequence[str], configs: typing.Sequence[str]) -> typing.Tuple[subprocess.Popen, str]:  # fmt: skip
+                langs: typing.Sequence[str], configs: typing.Sequence[str], optimize: bool = False) -> typing.Tuple[subprocess.Popen, str]:  # fmt: skip
     spec_path = os.path.join(str(scratch), f"det-{name}.json")
     out_path = os.path.join(str(scratch), f"det-{name}.out.json")
     with open(spec_path, "w", encoding="utf-8") as f:
@@ -620,9 +620,10 @@ def spawn_child(scratch: typing.Any, name: str, hashseed: int, order: str, token
     env = dict(os.environ)
     env["PYTHONHASHSEED"] = str(hashseed)
     env["PYTHONDONTWRITEBYTECODE"] = "1"
+    env.pop("PYTHONOPTIMIZE", None)
     code = "import sys; sys.path.insert(0, sys.argv[1]); from vf.checks.c09 import det_child; det_child(sys.argv[2])"
     p = subprocess.Popen(  # pylint: disable=consider-using-with
-        [sys.executable, "-c", code, str(VERIF), spec_path], env=env, cwd=str(VERIF), stdout=subprocess.PIPE, stderr=subprocess.STDOUT, text=True
+        [sys.executable] + (["-O"] if optimize else []) + ["-c", code, str(VERIF), spec_path], env=env, cwd=str(VERIF), stdout=subprocess.PIPE, stderr=subprocess.STDOUT, text=True
     )
     return p, out_path
 
@@ -1020,6 +1021,13 @@ def run(ctx: Ctx) -> int:
     children = [
         (name, *spawn_child(ctx.scratch, name, seed, order, None, LANGS, list(CONFIGS))) for name, seed, order in CHILDREN
     ]
+    # the interpreter's optimisation mode is part of "every process": one ordinary and one `python -O` process evaluate the
+    # refusal candidates under EVERY configuration (also those that refuse) and must agree call by call
+    opt_tokens = list(dict.fromkeys(REFUSAL_CANDIDATES + ["a b", "a-b", "_Foo", "Foo", "x", "1", "__a", "a__"]))
+    opt_children = [
+        (name, *spawn_child(ctx.scratch, name, CHILDREN[0][1], "fwd", opt_tokens, LANGS, list(ALL_CONFIGS), optimize=opt))
+        for name, opt in (("plain-interpreter", False), ("optimised-interpreter", True))
+    ]
 
     jobs: typing.List[tuple] = []
     histories = pair_histories(ctx)
@@ -1080,6 +1088,20 @@ def run(ctx: Ctx) -> int:
 
     docs = {name: collect_child(p, out_path, name) for name, p, out_path in children}
     compared = compare_processes(ctx, mine, docs, dtoks)
+    odocs = {name: collect_child(p, out_path, name) for name, p, out_path in opt_children}
+    opairs = [(t, i) for t in opt_tokens for i in ID_TYPES]
+    for key, plain_res in odocs["plain-interpreter"]["results"].items():
+        lang, cfg = key.split("|")
+        for (t, i), a, b in zip(opairs, plain_res, odocs["optimised-interpreter"]["results"][key]):
+            compared += 1
+            if list(a) != list(b):
+                ctx.violation(
+                    {"kind": "process_dependent", "lang": lang, "config": cfg, "id_type": i, "feature": "python -O"},
+                    {"mode": "optimised", "lang": lang, "config": cfg, "id_type": i, "token": t},
+                    f"[{lang}/{cfg}/{i}] {t!r}: {a!r} in an ordinary interpreter, {b!r} under python -O",
+                )
+    if not any(r[0] == "exc" for res in odocs["plain-interpreter"]["results"].values() for r in res):
+        raise HarnessError("no refused call among the interpreter-mode comparisons")
     pair_stats = compare_pairs(ctx, pairs)
 
     # ---- vacuity guards of the history families (all computed from the space / the oracle side)
@@ -1314,6 +1336,19 @@ def replay(ctx: Ctx, case: dict) -> int:
             print(f"  fresh process {name}: {theirs!r}" + ("" if list(theirs) == list(out) else "   <-- differs"))
             if list(theirs) != list(out) or doc["self_diff"]:
                 rc = 1
+    if case.get("mode") == "optimised":
+        kids = [
+            (name, *spawn_child(ctx.scratch, name, CHILDREN[0][1], "fwd", [case["token"]], [case["lang"]], [case["config"]], optimize=opt))
+            for name, opt in (("plain-interpreter", False), ("optimised-interpreter", True))
+        ]
+        idx = ID_TYPES.index(case["id_type"])
+        got = []
+        for name, p, out_path in kids:
+            doc = collect_child(p, out_path, name)
+            got.append(list(doc["results"][f"{case['lang']}|{case['config']}"][idx]))
+            print(f"  {name}: {got[-1]!r}")
+        if got[0] != got[1]:
+            rc = 1
     if rc == 0:
         print("  satisfies the statement")
     return rc
